@@ -1178,14 +1178,27 @@ impl<T: PPGEvaluatorStrategy> PPGEvaluator<T> {
         debug!("Process signals, depth {}", depth);
         #[cfg(tyberiusprime_pypipegraph2_verif)]
         crate::verif::note_depth(depth);
-        let res = self.inner_process_signals(depth);
+        // Every round of signals may create a new round. That used to be a
+        // (tail) recursion, one level per round - and a re-evaluation of an up to
+        // date linear graph takes a few rounds per job *within one call*,
+        // which exhausted the nesting limit (or the stack) at a few hundred jobs.
+        let mut depth = depth;
+        loop {
+            self.inner_process_signals(depth)?;
+            if self.signals.is_empty() {
+                break;
+            }
+            depth += 1;
+        }
         debug!("Leaving process signals, {}", depth);
-        res
+        Ok(())
     }
 
     fn inner_process_signals(&mut self, depth: u32) -> Result<(), PPGEvaluatorError> {
-        if depth > 1500 {
-            return Err(PPGEvaluatorError::InternalError("Depth ConsiderJob loop. Either pathological input, or bug. Aborting to avoid stack overflow".to_string()));
+        // the number of rounds is proportional to the number of jobs. Anything far
+        // beyond that is a ConsiderJob loop.
+        if depth as usize > 1500 + 20 * self.jobs.len() {
+            return Err(PPGEvaluatorError::InternalError("Depth ConsiderJob loop. Either pathological input, or bug. Aborting to avoid an endless loop".to_string()));
         }
         let mut new_signals = Vec::new();
         let mut ignore_consider_signals = HashSet::new();
@@ -1599,9 +1612,7 @@ impl<T: PPGEvaluatorStrategy> PPGEvaluator<T> {
             }
             //self.signals.extend(new_signals.drain(..));
         }
-        if !self.signals.is_empty() {
-            self.process_signals(depth + 1)?;
-        }
+        // if there are signals left, process_signals goes for another round.
         Ok(())
     }
 
